@@ -282,6 +282,48 @@ def check_uris(rep, stats, max_eps):
         pass
 
 
+def check_parser_instances(rep, stats):
+  """Several parser objects in one process, one of them customised (an extra scheme registered on the instance, a subclass that
+  overrides the tcp handler): every other parser keeps rejecting foreign schemes and parsing tcp:// as listed."""
+  from scales.core import ScalesUriParser
+
+  class Sub(ScalesUriParser):
+    def _HandleTcp(self, uri):
+      return 'SUB'
+  for order in itertools.permutations(['default', 'custom', 'sub']):
+    parsers = {}
+    for what in order:
+      if what == 'default':
+        parsers['default'] = ScalesUriParser()
+      elif what == 'custom':
+        parsers['custom'] = ScalesUriParser()
+        parsers['custom'].handlers['http'] = lambda uri: 'HTTP'
+      else:
+        parsers['sub'] = Sub()
+    parsers['late'] = ScalesUriParser()
+    for name in ('default', 'late'):
+      stats['evals'] += 1
+      stats['keys'].add(('parser-instances', order, name))
+      p = parsers[name]
+      case = {'created_in_order': list(order), 'parser': name}
+      try:
+        got = p.Parse('http://a:1')
+        rep.violation('C20.scheme-accepted', 'an uncustomised parser accepted http:// (%r) after another parser object was customised; %r'
+                      % (got, case), {'scheme': 'http', 'instances': True}, {'case': case})
+        return
+      except Exception:
+        pass
+      try:
+        prov = p.Parse('tcp://a:1,b:2,c:3')
+        got = [(s.service_endpoint.host, s.service_endpoint.port) for s in prov.GetServers()]
+      except Exception as e:  # noqa
+        got = repr(e)
+      if got != [('a', 1), ('b', 2), ('c', 3)]:
+        rep.violation('C20.tcp-uri', 'an uncustomised parser parsed tcp://a:1,b:2,c:3 to %r after another parser object was customised; %r'
+                      % (got, case), {'scheme': 'tcp', 'instances': True}, {'case': case})
+        return
+
+
 def check_builder_uris(rep, stats, length):
   """The client builder's SetUri, called repeatedly on ONE builder (also again after it rejected a URI): every call with a foreign
   scheme is rejected, every accepted call makes the builder use exactly the endpoints of that URI."""
@@ -331,6 +373,7 @@ def main(tier, seed):
   check_proxies(rep, stats)
   check_same_name(rep, stats)
   check_builder_uris(rep, stats, 3 if tier == 'quick' else 4)
+  check_parser_instances(rep, stats)
   check_uris(rep, stats, 3 if tier == 'quick' else 4)
   rep.put('evaluations', stats['evals'])
   rep.put('distinct_nontrivial', len(stats['keys']))
